@@ -67,8 +67,9 @@ def one(run, h, batch, rng, key):
     # ... and on no tuple differing in SEVERAL coordinates either: two coordinates exchanged, and value moved from one coordinate
     # to another with the sum preserved (a key whose exponents y_i are not independent would let these through)
     if n >= 2 and u != 0:
-        for _ in range(2):
-            i, j = rng.sample(pick_coords(rng, n, 3, False), 2) if n > 2 else (0, 1)
+        cs_ = pick_coords(rng, n, 3, False)
+        pairs = [(i, j) for i in cs_ for j in cs_ if i < j] if n <= 5 else [tuple(rng.sample(cs_, 2)) for _ in range(3)]
+        for i, j in pairs:          # short tuples: EVERY pair of coordinates
             dlt = rng.choice([1, rand_nz(rng)])
             moved = list(ms)
             moved[i], moved[j] = (ms[i] + dlt) % Q, (ms[j] - dlt) % Q
